@@ -11,6 +11,7 @@ var (
 	_ ColInput  = (*ColLowCardinality[string])(nil)
 	_ ColResult = (*ColLowCardinality[string])(nil)
 	_ Column    = (*ColLowCardinality[string])(nil)
+	_ Inferable = (*ColLowCardinality[string])(nil)
 )
 
 //go:generate go run github.com/dmarkham/enumer -type CardinalityKey -trimprefix Key -output col_low_cardinality_enum.go
@@ -197,6 +198,16 @@ func (c *ColLowCardinality[T]) DecodeColumn(r *Reader, rows int) error {
 
 func (c ColLowCardinality[T]) Type() ColumnType {
 	return ColumnTypeLowCardinality.Sub(c.index.Type())
+}
+
+// Infer ensures Inferable column propagation.
+func (c *ColLowCardinality[T]) Infer(t ColumnType) error {
+	if v, ok := c.index.(Inferable); ok {
+		if err := v.Infer(t.Elem()); err != nil {
+			return errors.Wrap(err, "infer index")
+		}
+	}
+	return nil
 }
 
 func (c *ColLowCardinality[T]) EncodeColumn(b *Buffer) {
